@@ -147,11 +147,11 @@ theorem body1_spec {σ} (o : Oracle σ) (s0 : σ) (buf : Bytes) (v : UncompressV
   have hchunk : chunk = 16384 := rfl
   rw [hchunk] at hav
   have havle : avail ≤ p0.length - l1 := by rw [← hav]; split <;> omega
-  have havail : (if decide (l1 + 16384 < p0.length) then 16384 else toU32 ((p0.length : Int) - (l1 : Int))) = avail := by
+  have havail : (if l1 + 16384 < p0.length then 16384 else toU32 ((p0.length : Int) - (l1 : Int))) = avail := by
     rw [← hav]
     by_cases hlt : l1 + 16384 < p0.length
     · simp [hlt]
-    · simp only [hlt, decide_false, if_false, Bool.false_eq_true]
+    · simp only [hlt, if_false]
       exact toU32_sub _ _ hle (by omega)
   have hadv : ¬ (p0.length < l1 + avail) := by omega
   refine ⟨hadv, ?_⟩
@@ -159,14 +159,17 @@ theorem body1_spec {σ} (o : Oracle σ) (s0 : σ) (buf : Bytes) (v : UncompressV
   · left
     refine ⟨hz, ⟨p0, p1, l0, l1 + avail, p0.length, 16384, l4, l5, l6, ⟨l1, avail, no, ao, some s⟩⟩, ?_, rfl⟩
     unfold uncompress_body1
+    simp only [decide_eq_true_eq, Bool.not_eq_true', decide_eq_false_iff_not, ge_iff_le, gt_iff_lt, Nat.not_le,
+      Nat.not_lt]
     simp only [havail, ZlibCxx.ptrAdvance, Res.bind, hadv, if_false]
-    simp only [hz, decide_true, if_true]
+    simp only [hz, eq_self, if_true]
   · right
     refine ⟨hz, ⟨p0, p1, l0, l1 + avail, p0.length, 16384, l4, l5, l6, ⟨l1, avail, no, ao, some s⟩⟩, ?_,
       ⟨rfl, rfl, rfl, rfl, rfl, ho, rfl, by omega⟩, rfl, rfl, rfl⟩
     unfold uncompress_body1
-    simp only [havail, ZlibCxx.ptrAdvance, Res.bind, hadv, if_false]
-    simp only [hz, decide_false, if_false, Bool.false_eq_true]
+    simp only [decide_eq_true_eq, Bool.not_eq_true', decide_eq_false_iff_not, ge_iff_le, gt_iff_lt, Nat.not_le,
+      Nat.not_lt]
+    simp only [havail, ZlibCxx.ptrAdvance, Res.bind, hadv, hz, if_false]
 
 theorem sim {σ} (o : Oracle σ) (hsz : Sized o) (s0 : σ) (buf : Bytes) : ∀ fuel : Nat,
     (∀ g v s ptr acc, fuel ≤ g → Inv buf v s ptr acc → v.l4 ≠ 1 →
